@@ -45,11 +45,20 @@ def gen(seed: int, tier: str) -> dict[str, Any]:
         pol = rng.choice(["init", f"expire {unit}", f"every {unit}", True, unit, f"expire {unit * 2}", False,
                           f"every {unit * 3}"])
         devs.append({"sync": pol, "answer": rng.choice([0.01, 0.01, 0.3, 1.9, None]), "value": rng.randrange(2)})
+    crowd = rng.random() < 0.3
+    if crowd:
+        # several trackers whose reads fall due together and queue behind the two read slots (slow / unanswered reads),
+        # with state telegrams landing while reads are queued
+        n = rng.choice([3, 4, 6])
+        devs = [{"sync": rng.choice([f"expire {unit}", f"expire {unit}", f"every {unit}", unit]),
+                 "answer": rng.choice([None, None, 1.9, 0.3, 0.01]), "value": rng.randrange(2)} for _ in range(n)]
     horizon = unit * 60.0 * rng.choice([0.5, 1.5, 3.2])
     ops: list[dict[str, Any]] = []
     m = rng.choice([0, 2, 5, 10, 20])
     for _ in range(m):
         base = rng.choice([rng.uniform(0, horizon), rng.uniform(0, 5.0), unit * 60.0 * rng.choice([1, 2, 3]) + rng.uniform(-3, 3)])
+        if crowd and rng.random() < 0.6:
+            base = unit * 60.0 * rng.choice([1, 1, 2, 3]) + rng.uniform(0.0, 2.0 * n)
         t = round(max(0.0, base), 6)
         k = rng.choices(["conn", "state_tg", "cmd_tg", "remove", "add"], [3, 4, 4, 1, 1])[0]
         op: dict[str, Any] = {"t": t, "op": k}
